@@ -5,6 +5,7 @@ import (
 	"fmt"
 
 	"github.com/protolambda/zrnt/eth2/beacon/common"
+	"github.com/protolambda/zrnt/eth2/beacon/deneb"
 	"github.com/protolambda/zrnt/eth2/beacon/phase0"
 )
 
@@ -29,7 +30,13 @@ func ValidateVoluntaryExit(ctx context.Context, volExit *phase0.SignedVoluntaryE
 	if err != nil {
 		return GossipValidatorResult{IGNORE, err}
 	}
-	if err := phase0.ValidateVoluntaryExit(exitVal.Spec(), epc, state, volExit); err != nil {
+	spec := exitVal.Spec()
+	validate := phase0.ValidateVoluntaryExit
+	if epc.CurrentEpoch.Epoch >= spec.DENEB_FORK_EPOCH {
+		// EIP-7044: exits are signed under the capella fork version from deneb on
+		validate = deneb.ValidateVoluntaryExit
+	}
+	if err := validate(spec, epc, state, volExit); err != nil {
 		return GossipValidatorResult{REJECT, err}
 	}
 
